@@ -267,6 +267,21 @@ def _task_reuse(task):
                             t.violation({"kind": "reuse-construction-failed"}, {"op": op}, observed=repr(ex))
                             continue
                         for step, v in enumerate(hist):
+                            if step == len(hist) // 2 and not isinstance(hist[0], bool):
+                                # in between, the Comparison object is asked about the raw value of a parameter that is being decoded (its
+                                # parameter is not in the packet yet): a context match on the field's own value
+                                w0 = _expect_cmp(op, hist[0], lit)
+                                if w0 != "raise":
+                                    t.evals += 1
+                                    try:
+                                        with observed_warnings():
+                                            g0 = c.evaluate(CCSDSPacket(Q=common.IntParameter(5)), hist[0])
+                                    except Exception as ex:  # noqa: BLE001
+                                        g0 = f"raised:{type(ex).__name__}"
+                                    if g0 is not w0:
+                                        t.violation({"kind": "criterion-has-memory", "form": "Comparison-own-raw", "step": step, "got": str(g0)[:30]},
+                                                    {"form": "reuse:Comparison-own-raw", "op": op, "literal": lit, "use_cal": use_cal, "history": list(hist), "step": step},
+                                                    expected=w0, observed=repr(g0))
                             if isinstance(v, bool) and not use_cal:
                                 continue  # a raw value is never a plain bool
                             other = 9 if not isinstance(v, float) else 9.5
